@@ -5,11 +5,27 @@
 // taken / peeked event and every call's result.  Same lines as ocaml/_build/driver_qconc.
 #include "common.h"
 #include "vsched.h"
+#if defined(VH_HETER) && VH_HETER == 1
+#define private public
+#define protected public
+#include "eventpp/hetereventqueue.h"
+#undef private
+#undef protected
+#endif
 
 namespace {
 
 struct Policies { using Threading = vsched::VThreading; };
+// -DVH_HETER=1: the same thread programs against eventpp::HeterEventQueue (one prototype).  It has no takeEvent,
+// peekEvent, processUntil or DisableQueueNotify: programs using them are not generated for this variant.
+#if defined(VH_HETER) && VH_HETER == 1
+using Q = eventpp::HeterEventQueue<int, eventpp::HeterTuple<void (int)>, Policies>;
+#define VH_HAS_FULL_API 0
+#else
 using Q = eventpp::EventQueue<int, void (int), Policies>;
+#define VH_HAS_FULL_API 1
+#endif
+bool g_draining = false;
 
 struct Runner
 {
@@ -18,7 +34,9 @@ struct Runner
 
 	void body(int me)
 	{
+#if VH_HAS_FULL_API
 		std::vector<std::unique_ptr<Q::DisableQueueNotify>> scopes;
+#endif
 		for(const auto & c : progs[me]) {
 			const std::string & op = c[0];
 			using vh::num;
@@ -26,6 +44,7 @@ struct Runner
 			else if(op == "process") { const bool r = q.process(); std::printf("res t%d %d\n", me, (int)r); }
 			else if(op == "processone") { const bool r = q.processOne(); std::printf("res t%d %d\n", me, (int)r); }
 			else if(op == "processif") { const int p = (int)num(c[1]); const bool r = q.processIf([p](int a) { return ((p + a) % 2) == 0; }); std::printf("res t%d %d\n", me, (int)r); }
+#if VH_HAS_FULL_API
 			else if(op == "processuntil") { const int p = (int)num(c[1]); const bool r = q.processUntil([p](int a) { return ((p + a) % 2) == 0; }); std::printf("res t%d %d\n", me, (int)r); }
 			else if(op == "take") {
 				Q::QueuedEvent ev; const bool r = q.takeEvent(&ev);
@@ -37,12 +56,15 @@ struct Runner
 				if(r) std::printf("peeked t%d %d %d\n", me, ev.event, std::get<0>(ev.arguments));
 				std::printf("res t%d %d\n", me, (int)r);
 			}
+#endif
 			else if(op == "clear") { q.clearEvents(); std::printf("done t%d\n", me); }
 			else if(op == "emptyq") { const bool r = q.emptyQueue(); std::printf("res t%d %d\n", me, (int)r); }
 			else if(op == "wait") { q.wait(); std::printf("done t%d\n", me); }
 			else if(op == "waitfor") { const bool r = q.waitFor(std::chrono::milliseconds(1)); std::printf("res t%d %d\n", me, (int)r); }
+#if VH_HAS_FULL_API
 			else if(op == "disable_begin") { scopes.emplace_back(new Q::DisableQueueNotify(&q)); std::printf("done t%d\n", me); }
 			else if(op == "disable_end") { if(! scopes.empty()) scopes.pop_back(); std::printf("done t%d\n", me); }
+#endif
 			else { std::printf("harness-error unknown op %s\n", op.c_str()); std::fflush(stdout); std::abort(); }
 		}
 	}
@@ -64,7 +86,9 @@ int main()
 			for(size_t i = 2; i < ws.size(); ++i) sched.push_back((int)vh::num(ws[i]));
 			vsched::Scheduler & s = vsched::Scheduler::get();
 			s.reset(sched);
-			for(int k = 0; k < 6; ++k) r->q.appendListener(k, [k](int a) { std::printf("disp t%d %d %d\n", vsched::Scheduler::get().self(), k, a); });
+			for(int k = 0; k < 6; ++k) r->q.appendListener(k, [k](int a) {
+				if(g_draining) std::printf("drained %d %d\n", k, a);
+				else std::printf("disp t%d %d %d\n", vsched::Scheduler::get().self(), k, a); });
 			s.registerObject(&r->q.queueListMutex, "qm");
 			s.registerObject(&r->q.freeListMutex, "fm");
 			s.registerObject(&r->q.queueEmptyCounter, "ec");
@@ -76,7 +100,11 @@ int main()
 			s.onDeadlock = [rp]() { std::printf("DEADLOCK pending=%d nc=%d\n", (int)rp->q.queueList.size(), (int)rp->q.queueNotifyCounter.value); };
 			s.run(bodies);
 			// all threads have finished: what is still queued
+#if VH_HAS_FULL_API
 			{ Q::QueuedEvent ev; while(r->q.takeEvent(&ev)) std::printf("drained %d %d\n", ev.event, std::get<0>(ev.arguments)); }
+#else
+			g_draining = true; r->q.process(); g_draining = false;
+#endif
 		}
 		else if(ws[0] == "end") { r.reset(); std::printf("end\n"); std::fflush(stdout); }
 	}
